@@ -370,7 +370,7 @@ def rule_D3(ctx, rep, rid='D3', methods=('flush', 'stats')):
         return
     rep.analysed(b)
     # private helpers of build() (a `start(..)` constructor ..) inlined; spawn function and worker constructor stay calls
-    spawners = set(x.path for x in cad.all_bodies if x.def_kind == 'Fn' and any(callee_is(t_, 'std::thread::functions::spawn', 'std::thread::builder::Builder::spawn') for _, t_ in x.calls()))
+    spawners = set(x.path for x in cad.all_bodies if x.def_kind == 'Fn' and any(callee_is(t_, 'std::thread::functions::spawn', 'std::thread::builder::Builder::spawn', 'std::thread::Builder::spawn') for _, t_ in x.calls()))
     T = Terms(inl(cad, b, never=lambda x: x.path in spawners or (x.impl_self and x.impl_trait is None and type_head(x.locals[0]) == type_head(x.impl_self)
                                                                   and type_head(x.impl_self) != Q and in_module_of(x, Q) and 'Sender' in str(cad.adts.get(type_head(x.impl_self), '')))))
     rts = ret_terms(T, [0])
